@@ -43,6 +43,8 @@ Fixpoint take_digits (l : str) : str * str :=
   | [] => ([], [])
   end.
 
+Fixpoint strip_zeros (l : str) : str := match l with c :: r => if (c =? 48)%N then strip_zeros r else l | [] => [] end.
+
 Definition two_pow_1024 : Z := Z.pow 2 1024.
 Definition overflow_threshold : Q := inject_Z (two_pow_1024 - Z.pow 2 970).     (* DBL_MAX + half an ulp *)
 
@@ -78,7 +80,9 @@ Definition float_of_str (s : str) : option xnum :=
           match de, r2 with
           | _ :: _, [] =>
               (* a huge exponent saturates; the cap keeps 10^e computable *)
-              let ev := if (6 <? Z.of_nat (length de))%Z then 1000000%Z else digits_val 0 de in
+              (* (leading zeros of the exponent do not count: "1e0000000000" is 1.0) *)
+              let de' := strip_zeros de in
+              let ev := if (6 <? Z.of_nat (length de'))%Z then 1000000%Z else digits_val 0 de' in
               Some (dec_to_xnum neg m ((if eneg then - ev else ev) - Z.of_nat (length df)) nd)
           | _, _ => None
           end
